@@ -166,6 +166,23 @@ def handle (args : List String) : String :=
     | some t => (match tokenise t with | some toks => s!"ok {canonToks toks}" | none => "err")
     | none => "bad-op"
   | "trk" :: vals :: reqs => ";".intercalate (trkRun (parseVals vals) reqs [])
+  | ["pvw", opt, i, b, side] => match unhex i, unhex b with
+    -- parse_(optional_)variant_field::<E>(base) with E's verdict on the extracted content supplied as a sidecar:
+    -- `~` = parse_with_variant fails, otherwise the hex of what the value serialises to
+    | some input, some base =>
+      let pwv : Text → Option Text → Option Text := fun _ _ => if side == "~" then none else unhex side
+      if opt == "1" then
+        (match parseOptionalVariantWith pwv id (PState.init input) base with
+          | .ok (some _, s') => s!"ok {byteLen s'.rest}"
+          | .ok (none, _) => "none"
+          | .error (.invalid t _) => s!"invalid:{hex t}"
+          | .error (.parser e) => s!"err:{perr e}")
+      else
+        (match parseVariantWith pwv id (PState.init input) base with
+          | .ok (_, s') => s!"ok {byteLen s'.rest}"
+          | .error (.invalid t _) => s!"invalid:{hex t}"
+          | .error (.parser e) => s!"err:{perr e}")
+    | _, _ => "bad-op"
   | "mp" :: i :: ops => match unhex i with
     | some input => ";".intercalate (mpRun (PState.init input) ops)
     | none => "bad-op"
